@@ -41,6 +41,10 @@ impl<T: PartialEq + Eq + Hash> AvailableValueMap<T> {
         self.map.insert(key, value);
     }
 
+    pub fn remove(&mut self, key: &T) {
+        self.map.remove(key);
+    }
+
     /// Check if the available value map is empty.
     #[must_use]
     pub fn is_empty(&self) -> bool {
